@@ -105,7 +105,11 @@ def generate(ctx):
             seen.add(k)
             uniq.append(v)
     nsim = sum(1 for v in uniq if len(v["segs"]) > maxlen)
-    return uniq, laws, nsim
+    # the same vectors of the file-tree database once more in a bare sandbox: the root is empty and lies in directories that
+    # hold nothing else (whatever tidies up empty directories must stop at the root)
+    bare = [dict(v, bare=True) for v in uniq if v["comp"] == "fstree" and v["op"] in ("delete", "put")
+            and (v["cls"] in ("root-itself", "inside-via-dotdot") or len(v["segs"]) <= 2)]
+    return uniq + bare, laws, nsim
 
 
 def label(why):
@@ -182,6 +186,7 @@ def judge(ctx, events):
     bad = validate(ctx, events)
     for ev, why in bad:
         v = {k: ev[k] for k in ("comp", "op", "depth", "pad", "abs", "segs", "roots", "base", "esc", "cls")}
+        v["bare"] = bool(ev.get("bare"))
         ctx.violation("%s:%s:%s:%s" % (ev["comp"], ev["op"], why["cls"], label(why)),
                       "%s %s(%r) with root %s: %s; error returned: %s%s; outside the root: %s; all sandbox changes: %s; returned data from: %s"
                       % (ev["comp"], ev["op"], ev["name"], ev.get("rootpath"),
